@@ -596,7 +596,7 @@ type caseCtx struct {
 func newCaseCtx(seed int64, dir string) *caseCtx {
 	c := &caseCtx{rng: rand.New(rand.NewSource(seed)), chunk: 16}
 	c.src = filepath.Join(dir, "src", "payload")
-	xfer.MakeTree(c.src, []xfer.FileSpec{{Rel: "a.bin", Size: 40}, {Rel: "d/b.bin", Size: 5}}, seed)
+	xfer.MakeTree(c.src, []xfer.FileSpec{{Rel: "a.bin", Size: 40}, {Rel: "d/b.bin", Size: 5}, {Rel: "z-empty.bin", Size: 0}}, seed)
 	c.m, _, _ = xfer.Scan(c.src, false)
 	for _, it := range c.m.Items {
 		if !it.IsDir {
@@ -676,6 +676,14 @@ func (c *caseCtx) senderScript(r mutRow) (ctrl []byte, data []byte) {
 			cb.Write(enc)
 			cb.Write(enc)
 			c.restOfTransfer(&cb, &db, 0)
+			return cb.Bytes(), db.Bytes()
+		case "chunksize-0-empty-file":
+			// a zero-length file announced with chunk size 0, followed by a chunk frame for it
+			fe := c.files[len(c.files)-1]
+			keyE := transfer.VerifFileKey(fe)
+			cb.Write(encode(transfer.FileBegin{RelPath: fe.RelPath, FileSize: 0, ChunkSize: 0, StreamID: keyE, HashAlg: 1}))
+			db.Write(chunkFrame(keyE, 0, src0[:1+c.rng.Intn(8)], true, -1))
+			cb.Write(encode(transfer.FileEnd{StreamID: keyE}))
 			return cb.Bytes(), db.Bytes()
 		case "chunksize-0":
 			b2 := begin
